@@ -106,10 +106,10 @@ def rAnalysis (r : AnalysisResult α) (hasFrontMatter : Bool) : String :=
   match r.panic with
   | some p => s!"PANIC {p}"
   | none =>
-    let ds := r.diags.toList.filter (fun d => !externalKind d.kind)
+    let ds := r.diags.toList.filter (fun d => !(hasFrontMatter && externalKind d.kind))
     let dstr := "diags=[" ++ " ".intercalate (ds.map rDiagFull) ++ "]"
     match r.output with
     | none => s!"NOOUT {dstr}"
-    | some c => s!"OUT {rCol c (!hasFrontMatter)} {dstr}"
+    | some c => s!"OUT {rCol c (!hasFrontMatter)}{if hasFrontMatter then "" else s!" servings={rOpt (fun l : List Nat => toString l) c.servings}"} {dstr}"
 
 end Cook.Driver
